@@ -46,6 +46,7 @@ from functools import singledispatchmethod
 from ufl.algorithms.map_integrands import map_integrands
 from ufl.algorithms.remove_component_tensors import IndexReplacer
 from ufl.classes import (
+    ComponentTensor,
     Division,
     Expr,
     Identity,
@@ -235,10 +236,10 @@ class JacobianCanceller(IndexSumSimplifier):
 
 
 def _bound_indices(expr):
-    """Return the indices bound by IndexSum nodes inside expr."""
+    """Return the indices bound by IndexSum and ComponentTensor nodes inside expr."""
     bound = set()
     for node in unique_pre_traversal(expr):
-        if isinstance(node, IndexSum):
+        if isinstance(node, IndexSum | ComponentTensor):
             bound.update(node.ufl_operands[1].indices())
     return bound
 
